@@ -263,6 +263,9 @@ def single_op_programs(N=4):
     for k, writes in enumerate([[(0, 'copy', 0), (1, 'sq', 1)], [(0, 'copy', 0), (0, 'acc', 1), (1, 'copy', 2 % N)], [(0, 'sq', 0), (0, 'acc', 1), (0, 'acc', 0)],
                                 [(0, 'const', 0), (1, 'mix', 1), (0, 'copy', 0)], [(1, 'copy', 0), (0, 'mix', 1), (1, 'acc', 1)]]):
         out.append(Program(N, [(1, 'buffer', (0,), {'n': 2, 'writes': writes})], 'buffer%d' % k))
+    # views of INTERMEDIATE results that NumPy can only reshape by copying (their adjoints are non-owning copies, not views)
+    out.append(Program(N, mat + [(2, 'self_mul', (1,), {}), (3, 'transpose', (2,), {}), (4, 'reshape', (3,), {'shape': (N,)}), (5, 'exp', (4,), {})], 'reshape[transposed intermediate]'))
+    out.append(Program(N, mat + [(2, 'exp', (1,), {}), (3, 'transpose', (2,), {}), (4, 'reshape', (3,), {'shape': (N,)}), (5, 'mul_c', (4,), {'c': numpy.arange(1., N + 1)})], 'reshape[transposed exp]'))
     for mode in ('read', 'write', 'rewrite', 'reread'):
         out.append(Program(N, [(1, 'buffer_views', (0,), {'mode': mode})], 'buffer_views[%s]' % mode))
         out.append(Program(N, [(1, 'sin', (0,), {}), (2, 'buffer_views', (1,), {'mode': mode}), (3, 'exp', (2,), {})], 'buffer_views[%s]+' % mode))
